@@ -7,6 +7,8 @@ func init() {
 		// a script costs real time (withheld publishes, request timeouts): ~1-3 s per case,
 		// one case at a time per process (goroutine dumps are process-wide); concurrency
 		// comes from the shard processes, which mostly sleep
+		// the hand-minimised cases of testdata/replay/c27 (modes of the repaired signalling defect), in every tier
+		{Run: "TestSavedCases", Kind: "test", QTimeout: 10 * time.Minute, TTimeout: 10 * time.Minute},
 		{Run: "TestDeadlock", Quick: 640, Thorough: 9600, QShards: 32, TShards: 32, QTimeout: 12 * time.Minute, TTimeout: 90 * time.Minute},
 	}}
 }
